@@ -2,7 +2,6 @@ package rules
 
 import (
 	"fmt"
-	"os"
 	"go/token"
 	"go/types"
 	"strings"
@@ -141,9 +140,6 @@ func runC03(c *core.Ctx) {
 				n++
 				key := fmt.Sprintf("%s/slice#%d", f.Name(), n)
 				z := core.ZoneAt(ins.Block())
-				if os.Getenv("FPDEBUG") != "" {
-					for _, ef := range core.EdgeFacts(ins.Block()) { fmt.Println("SLICE", f.Name(), ins.Block().Index, ef.V, ef.True, ef.If.Block().Index) }
-				}
 				lenS := lenValue(x.X)
 				var fails []string
 				zero := ssa.Value(nil)
